@@ -385,6 +385,9 @@ func c12Import(run *ev.Run, chain *allChain, seed string, mode importMode, state
 		if mod == "" {
 			mod = moduleOfErr(err)
 		}
+		if sec, ok := state[mod]; ok {
+			det["rejected_section"] = trunc(compactJSON(sec), 6000)
+		}
 		run.Violation(fmt.Sprintf("C12:import-rejected:%s:%s:%s", tag, mod, errClass(err)), det, "%s import of the genesis exported at height %d was rejected (%s): %v", tag, a.Height, mod, trunc(err.Error(), 600))
 		run.Class("import", tag, mode.Only, "rejected")
 		return
